@@ -1963,11 +1963,23 @@ def register_batch2(M):
 
     @reg('intrinsic:ceilf64')
     def ceilf64(I, ext, a):
-        return float(math.ceil(a[0])) if math.isfinite(a[0]) else a[0]
+        x = a[0]
+        from .core import SymF
+        if type(x) is SymF:
+            if x.frac == 0:
+                return x
+            x = I.symf_concretize(x)
+        return float(math.ceil(x)) if math.isfinite(x) else x
 
     @reg('intrinsic:floorf64')
     def floorf64(I, ext, a):
-        return float(math.floor(a[0])) if math.isfinite(a[0]) else a[0]
+        x = a[0]
+        from .core import SymF
+        if type(x) is SymF:
+            if x.frac == 0:
+                return x
+            x = I.symf_concretize(x)
+        return float(math.floor(x)) if math.isfinite(x) else x
 
     @reg('intrinsic:roundf64')
     def roundf64(I, ext, a):
@@ -2022,3 +2034,167 @@ _old_register_all = register_all
 def register_all(M):  # noqa: F811
     _old_register_all(M)
     register_batch2(M)
+
+
+# =============================================================================== batch 3: lru, misc
+def register_batch3(M):
+    reg = M.reg
+    reg_re = M.reg_re
+    P = M.p
+
+    def targs(ext):
+        return [a['ty'] for a in ext['args'] if 'ty' in a]
+
+    @reg('lru::LruCache::<K, V>::new', 'lru::LruCache::<K, V>::unbounded')
+    def lru_new(I, ext, a):
+        ts = targs(ext)
+        cap = a[0] if a else (1 << 62)
+        if is_sym(cap):
+            cap = I.ctx.concretize(cap)
+        return LruObj(cap, ts[0], ts[1])
+
+    def lru_find(I, l, q):
+        key = q.s if type(q) is StrRef else None
+        for j, k in enumerate(l.kc.f):
+            if key is not None:
+                if k.s == key:
+                    return j
+            elif M.val_eq(I, l.kt, k, q.c.f[q.i]):
+                return j
+        return -1
+
+    def touch(l, j):
+        k = l.kc.f.pop(j)
+        v = l.f.pop(j)
+        l.kc.f.append(k)
+        l.f.append(v)
+        return len(l.f) - 1
+
+    @reg('lru::LruCache::<K, V, S>::cap')
+    def lru_cap(I, ext, a):
+        return deref_to_value(a[0]).cap
+
+    @reg('lru::LruCache::<K, V, S>::len')
+    def lru_len(I, ext, a):
+        return len(deref_to_value(a[0]).f)
+
+    @reg('lru::LruCache::<K, V, S>::is_empty')
+    def lru_is_empty(I, ext, a):
+        return len(deref_to_value(a[0]).f) == 0
+
+    @reg('lru::LruCache::<K, V, S>::contains')
+    def lru_contains(I, ext, a):
+        l = deref_to_value(a[0])
+        return lru_find(I, l, a[1]) >= 0
+
+    @reg('lru::LruCache::<K, V, S>::get', 'lru::LruCache::<K, V, S>::get_mut')
+    def lru_get(I, ext, a):
+        l = deref_to_value(a[0])
+        j = lru_find(I, l, a[1])
+        if j < 0:
+            return NONE()
+        j = touch(l, j)
+        return some(Ptr(l, j))
+
+    @reg('lru::LruCache::<K, V, S>::peek')
+    def lru_peek(I, ext, a):
+        l = deref_to_value(a[0])
+        j = lru_find(I, l, a[1])
+        return some(Ptr(l, j)) if j >= 0 else NONE()
+
+    @reg('lru::LruCache::<K, V, S>::put')
+    def lru_put(I, ext, a):
+        l = deref_to_value(a[0])
+        kcell = Cell(a[1])
+        j = lru_find(I, l, Ptr(kcell, 0))
+        if j >= 0:
+            old = l.f[j]
+            l.f[j] = a[2]
+            touch(l, j)
+            I.drop_value_at(kcell, 0, l.kt)
+            return some(old)
+        if l.cap == 0:
+            I.drop_value_at(kcell, 0, l.kt)
+            I.drop_value_at(Cell(a[2]), 0, l.vt)
+            return NONE()
+        if len(l.f) >= l.cap:
+            # evict the least recently used entry
+            I.drop_value_at(l.kc, 0, l.kt)
+            I.drop_value_at(l, 0, l.vt)
+            l.kc.f.pop(0)
+            l.f.pop(0)
+        l.kc.f.append(a[1])
+        l.f.append(a[2])
+        return NONE()
+
+    @reg('lru::LruCache::<K, V, S>::pop')
+    def lru_pop(I, ext, a):
+        l = deref_to_value(a[0])
+        j = lru_find(I, l, a[1])
+        if j < 0:
+            return NONE()
+        k = l.kc.f.pop(j)
+        v = l.f.pop(j)
+        I.drop_value_at(Cell(k), 0, l.kt)
+        return some(v)
+
+    @reg('lru::LruCache::<K, V, S>::clear')
+    def lru_clear(I, ext, a):
+        l = deref_to_value(a[0])
+        for j in range(len(l.f)):
+            I.drop_value_at(l.kc, j, l.kt)
+            I.drop_value_at(l, j, l.vt)
+        l.kc.f = []
+        l.f = []
+        return UNIT()
+
+    @reg('lru::LruCache::<K, V, S>::iter')
+    def lru_iter(I, ext, a):
+        l = deref_to_value(a[0])
+        # most recently used first
+        return IterObj(l, 0, None, 'lru', list(range(len(l.f) - 1, -1, -1)))
+
+    @reg("<lru::Iter<'a, K, V> as std::iter::Iterator>::next")
+    def lru_iter_next(I, ext, a):
+        it = deref_to_value(a[0])
+        if it.pos >= len(it.extra):
+            return NONE()
+        j = it.extra[it.pos]
+        it.pos += 1
+        return some(Agg([Ptr(it.c.kc, j), Ptr(it.c, j)]))
+
+    @reg("<lru::Iter<'a, K, V> as std::iter::DoubleEndedIterator>::next_back")
+    def lru_iter_next_back(I, ext, a):
+        it = deref_to_value(a[0])
+        if it.pos >= len(it.extra):
+            return NONE()
+        j = it.extra.pop()
+        return some(Agg([Ptr(it.c.kc, j), Ptr(it.c, j)]))
+
+    def drop_lru(I, ext, a):
+        l = deref_to_value(a[0])
+        for j in range(len(l.f)):
+            I.drop_value_at(l.kc, j, l.kt)
+            I.drop_value_at(l, j, l.vt)
+        l.kc.f = []
+        l.f = []
+        return UNIT()
+    M.drops['lru::LruCache'] = drop_lru
+
+    @reg('intrinsic:roundf64', 'std::f64::<impl f64>::round')
+    def f64_round(I, ext, a):
+        x = a[0]
+        from .core import SymF
+        if type(x) is SymF:
+            x = I.symf_concretize(x)
+        if not math.isfinite(x):
+            return x
+        return math.copysign(float(math.floor(abs(x) + 0.5)), x)
+
+
+_old2_register_all = register_all
+
+
+def register_all(M):  # noqa: F811
+    _old2_register_all(M)
+    register_batch3(M)
